@@ -37,6 +37,10 @@ CLAIMS = {
          "in which machine i does not change state, its limit is exactly the old limit minus the decrements logged for i, floored at 0 -- self-transitions never "
          "refresh, other machines never consume), C07_countdown (decrement, withdrawal of the pending action and immediate LimitReached), C07_refresh, C07_others. "
          "State changes and decrements are read off the ghost log, which the hook log comparison ties to the code.", "DESIGN.md section 4, C07"),
+ "C08": ("Theorems C08_update (functional specification of update_counter: saturating increment/decrement/set with 1, a sampled value or the other counter's "
+         "pre-transition value; CounterZero raised exactly on non-zero -> zero with that machine's zeroed-once flag unset, before the entered state's action; "
+         "precedence of the action scheduled by the CounterZero transition), C08_saturating, C08_once (CounterZero events for machine i plus its unset flags <= 2 "
+         "in every call: at most one per counter per machine per call).", "DESIGN.md section 4, C08"),
  "C09": ("Theorems C09_call / C09_at_most_one / C09_signallers / C09_targets over the ghost log: with nobody signalling nothing is delivered; a lone "
          "signaller (however often it signals) is excluded and every other machine index receives exactly one Signal, the signaller receiving one only if "
          "a machine answered during the round; two or more distinct signallers reach every index exactly once; the delivery list never contains a duplicate "
